@@ -9,7 +9,9 @@ repo="${SFS_REPO:-/repo}"
 pat="${1:-*}"
 miss=0
 for d in seeded/$pat/; do
-  id=$(basename "$d"); prop=$(python3 -c "import json;print(json.load(open('$d/meta.json'))['breaks_property'])")
+  id=$(basename "$d"); prop=$(python3 -c "
+import json; m=json.load(open('$d/meta.json')); det=m.get('detected_by_quick_check') or m.get('detected_by') or []
+print(m['breaks_property'] if (m['breaks_property'] in det or not det) else det[0])")
   git -C "$repo" checkout -q -- . ; git -C "$repo" apply "$PWD/$d/patch.diff" || { echo "$id: patch does not apply"; miss=1; continue; }
   out=$(SFS_REPO="$repo" ./check "$prop" --tier quick 2>&1); rc=$?
   git -C "$repo" checkout -q -- .
